@@ -139,6 +139,8 @@ func checkC12(c *Ctx, r *Report, tier string) {
 	r.Rule("C12.R4", "the batch size cap dominates the fan-out on every public batch entry point", 3)
 	r.Rule("C12.R5", "the creation proposer replaces the variable-length fields of the client's dataset message (id, partition table) with server-generated content on every path to the proposal", 2)
 	proposerOwnsStructuredFields(c, r, "C12.R5")
+	r.Rule("C12.R8", "an enum of a replicated message that selects an implementation is validated by the creation proposer (an unknown value would leave a nil implementation that panics on first use, on every replica and every replay)", 1)
+	enumSelectsImplementation(c, r, "C12.R8")
 	r.Rule("C12.R6", "no request wedges the server on a mutex: no lock-order cycle between mutex fields, no re-acquisition of a mutex that a caller on the same object may already hold", 2)
 	lockOrderRule(c, r, "C12.R6", newLockWorld(c), nil)
 	r.Rule("C12.R7", "no request makes a goroutine spin or the runtime abort: running minima in the index move only on strict improvement (greedy descent terminates on ties); the metadata map of a stored vertex is never written in place (a concurrent stream.Send of a search result reads it: `concurrent map read and map write` is fatal)", 3)
@@ -738,10 +740,16 @@ func isFloatSlice(t types.Type) bool {
 	return ok && b.Kind() == types.Float32
 }
 
-// validatedDatasetFields: getters of the *pb.Dataset being created that are compared with a constant on a branch
-// that returns an error, such that the creation proposal is only reachable on the other side.
-func validatedDatasetFields(c *Ctx, ro *roles) map[string]bool {
-	out := map[string]bool{}
+// validationScope: where the creation proposer decides about the client's message: the proposer itself, and any helper it
+// hands the message to whose error verdict keeps the proposal from being reached.
+type validationScope struct {
+	fn       *ssa.Function
+	ds       ssa.Value
+	rejected func(ifi *ssa.If, pol bool) bool // is the `pol` side of ifi a rejection (the proposal cannot follow)?
+}
+
+func validationScopes(c *Ctx) []validationScope {
+	var out []validationScope
 	for _, f := range prodFuncs(c, "storage", "services") {
 		var ds *ssa.Parameter
 		for _, p := range f.Params {
@@ -752,7 +760,6 @@ func validatedDatasetFields(c *Ctx, ro *roles) map[string]bool {
 		if ds == nil {
 			continue
 		}
-		// the proposal
 		var prop ssa.Instruction
 		eachInstr(f, func(i ssa.Instruction) {
 			if cc := asCall(i); cc != nil && callID(cc).Name == "Propose" {
@@ -762,6 +769,67 @@ func validatedDatasetFields(c *Ctx, ro *roles) map[string]bool {
 		if prop == nil {
 			continue
 		}
+		ff, pp := f, prop
+		rejectedHere := func(ifi *ssa.If, pol bool) bool {
+			blk := succOn(ifi, pol)
+			if len(blk.Instrs) == 0 {
+				return false
+			}
+			if _, reach := reachesAvoidingFrom(ff, firstInstr(blk), func(i ssa.Instruction) bool { return i == pp }, func(ssa.Instruction) bool { return false }); !reach {
+				return true
+			}
+			_, isRet := blk.Instrs[len(blk.Instrs)-1].(*ssa.Return)
+			return isRet
+		}
+		out = append(out, validationScope{f, ds, rejectedHere})
+		// helpers: h(ds) error, tested, error side rejected
+		eachInstr(f, func(i ssa.Instruction) {
+			cl, ok := i.(*ssa.Call)
+			if !ok || cl.Call.StaticCallee() == nil || !modLocal(cl.Call.StaticCallee()) || len(cl.Call.StaticCallee().Blocks) == 0 {
+				return
+			}
+			h := cl.Call.StaticCallee()
+			res := h.Signature.Results()
+			if res.Len() != 1 || !isErrorType(res.At(0).Type()) {
+				return
+			}
+			ai := -1
+			for k, a := range cl.Call.Args {
+				if a == ssa.Value(ds) {
+					ai = k
+				}
+			}
+			if ai < 0 || ai >= len(h.Params) {
+				return
+			}
+			ifi, errPol := errTestOf(f, cl)
+			if ifi == nil || !rejectedHere(ifi, errPol) {
+				return
+			}
+			hh := h
+			out = append(out, validationScope{h, h.Params[ai], func(ifi *ssa.If, pol bool) bool {
+				// in the helper a rejection is a branch on which every return carries a non-nil error
+				blk := succOn(ifi, pol)
+				if len(blk.Instrs) == 0 {
+					return false
+				}
+				_, escapes := reachesAvoidingFrom(hh, firstInstr(blk), func(i ssa.Instruction) bool {
+					rt, isR := i.(*ssa.Return)
+					return isR && len(rt.Results) == 1 && isNilConst(rt.Results[0])
+				}, func(ssa.Instruction) bool { return false })
+				return !escapes
+			}})
+		})
+	}
+	return out
+}
+
+// validatedDatasetFields: getters of the *pb.Dataset being created that are compared with a constant on a branch
+// that returns an error, such that the creation proposal is only reachable on the other side.
+func validatedDatasetFields(c *Ctx, ro *roles) map[string]bool {
+	out := map[string]bool{}
+	for _, sc := range validationScopes(c) {
+		f, ds := sc.fn, sc.ds
 		for _, ifi := range allIfs(f) {
 			b, ok := ifi.Cond.(*ssa.BinOp)
 			if !ok {
@@ -774,7 +842,7 @@ func validatedDatasetFields(c *Ctx, ro *roles) map[string]bool {
 			} else if g, ok := strip(b.Y).(*ssa.Call); ok {
 				getter, k = g, b.X
 			}
-			if getter == nil || len(getter.Call.Args) != 1 || getter.Call.Args[0] != ssa.Value(ds) {
+			if getter == nil || len(getter.Call.Args) != 1 || getter.Call.Args[0] != ds {
 				continue
 			}
 			n, isC := constInt(k)
@@ -791,15 +859,8 @@ func validatedDatasetFields(c *Ctx, ro *roles) map[string]bool {
 			default:
 				continue
 			}
-			// the proposal is not reachable on the zero side
-			if _, reach := reachesAvoidingFrom(f, firstInstr(succOn(ifi, zeroPol)), func(i ssa.Instruction) bool { return i == prop }, func(ssa.Instruction) bool { return false }); !reach {
-				// (the zero side may flow into the next disjunct of an ||: then it reaches prop only if that disjunct lets it —
-				// reachesAvoiding is path-insensitive, so require that the zero side's first block ends in a return)
+			if sc.rejected(ifi, zeroPol) {
 				out[callID(&getter.Call).Name] = true
-			} else if blk := succOn(ifi, zeroPol); len(blk.Instrs) > 0 {
-				if _, isRet := blk.Instrs[len(blk.Instrs)-1].(*ssa.Return); isRet {
-					out[callID(&getter.Call).Name] = true
-				}
 			}
 		}
 	}
